@@ -3,7 +3,7 @@
    read_token, count opens and closes, return the data that follows the matching close.
    The text half (text TokenReader::skip_container / skip_unquoted_value) is stated separately. *)
 From JV Require Import Bytes Tables BinPrim BufWin BinLexer BinReader.
-From JV.proofs Require Import BinLexProofs BinRoundProofs BinStreamProofs BinSkipProofs BinRSkipProofs.
+From JV.proofs Require Import BinLexProofs BinRoundProofs BinStreamProofs BinSkipProofs BinRSkipProofs BinSkipValueProofs.
 Open Scope nat_scope.
 
 (* Lexer::skip_container (via skip_value(OPEN)): for ALL byte strings -- so also for strings, floats
@@ -19,6 +19,15 @@ Theorem C09_bin_lexer_skip_value_open : forall l r,
   balanced_read (lx_data l) = Some r -> lx_skip_value L_OPEN l = (Ok tt, mklx r (lx_orig l)).
 Proof. exact lexer_skip_value_open. Qed.
 Print Assumptions C09_bin_lexer_skip_value_open.
+
+(* Lexer::skip_value(id) after read_id returned id: ends where reading the value as one token ends
+   (value_read: for an Open, where balanced token reading ends); ids that carry no value (Equal,
+   Close, a true id) are skipped as nothing, an rgb block as one value *)
+Theorem C09_bin_lexer_skip_value_lands : forall d id d1 r orig,
+  read_id d = Ok (id, d1) -> value_read d = Some r ->
+  lx_skip_value id (mklx d1 orig) = (Ok tt, mklx r orig).
+Proof. exact lexer_skip_value_lands. Qed.
+Print Assumptions C09_bin_lexer_skip_value_lands.
 
 (* TokenReader::skip_container: [st_ok s d pos c] says that the reader state s (any split of the
    pending data between window and underlying reader, any fault-free rest of the schedule, capacity
